@@ -455,6 +455,201 @@ theorem no_credentials_configured_is_open (P : Params) (hits : String → Bool)
   rw [h]
   simp [isWrapped, authEnabled, mkServers_g2]
 
+/-! ### Several requests on one connection (HTTP/1.1 keep-alive, HTTP/1.0 `Connection: keep-alive`, pipelining) -/
+
+/-- **decision_keeps_no_state.**  Regenerated from `auth_handler.handle_request`, `handle_unauthorized`,
+    `match` and `encrypted_dictionary_authorizer.authorize`: no assignment to an attribute or item of,
+    and no mutating call on, an object that outlives the request (the channel, the handler and
+    authorizer objects, module globals; `request.auth_info = …` and `request['…'] = …` are per request);
+    nothing is read through `request.channel` / `.server`; no `getattr`/`hasattr`/`vars`/`globals`/`__dict__`;
+    `supervisor_auth_handler` overrides nothing but `__init__`.  The single channel access is
+    `request.channel.set_terminator(None)` in the refusal path.  (Remembering a success on the channel,
+    the handler or in a module-level cache changes one of these lists.) -/
+theorem decision_keeps_no_state :
+    hr_persistent_writes = [] ∧ hr_channel_refs = [] ∧ hr_dynamic = [] ∧
+    hu_persistent_writes = [] ∧ hu_dynamic = [] ∧ hu_channel_refs = ["request.channel.set_terminator"] ∧
+    mt_persistent_writes = [] ∧ mt_channel_refs = [] ∧ mt_dynamic = [] ∧
+    az_persistent_writes = [] ∧ az_channel_refs = [] ∧ az_dynamic = [] ∧
+    auth_subclass_bases = ["auth_handler"] ∧ auth_subclass_defines = ["__init__"] ∧ auth_base_special_methods = [] ∧
+    unauthorized_stops_reading = true ∧ perRequestDecision = true := by decide
+
+theorem handleRequestOn_eq (P : Params) (dict : List (Bytes × Bytes)) (c : Conn) (header : List Bytes) :
+    handleRequestOn P dict c header = (handleRequest P dict header, c) := by
+  have h : perRequestDecision = true := by decide
+  simp [handleRequestOn, h]
+
+theorem serve_eq_answerOf (P : Params) (user stored : Option Bytes) (hits : String → Bool) (header : List Bytes)
+    (name : String) (hf : dispatch_order.find? hits = some name) (hw : isWrapped user name = true) :
+    serve P user stored hits header = answerOf name (handleRequest P [(user.getD [], stored.getD [])] header) := by
+  unfold serve
+  simp only [hf, hw, if_true]
+  cases handleRequest P [(user.getD [], stored.getD [])] header <;> rfl
+
+/-- a request that the channel dispatches is answered exactly as it would be alone on a fresh
+    connection, whatever the connection has seen before -/
+theorem serveOn_answer (P : Params) (user stored : Option Bytes) (c : Conn) (hits : String → Bool)
+    (header : List Bytes) (a : Answer) (h : (serveOn P user stored c hits header).1 = some a) :
+    a = serve P user stored hits header := by
+  unfold serveOn at h
+  cases hd : c.deaf with
+  | true => simp [hd] at h
+  | false =>
+    simp only [hd, Bool.false_eq_true, if_false] at h
+    cases hf : dispatch_order.find? hits with
+    | none =>
+      simp only [hf, Option.some.injEq] at h
+      simp [serve, hf, ← h]
+    | some name =>
+      simp only [hf] at h
+      cases hw : isWrapped user name with
+      | true =>
+        simp only [hw, if_true, handleRequestOn_eq, Option.some.injEq] at h
+        rw [serve_eq_answerOf P user stored hits header name hf hw, ← h]
+      | false =>
+        simp only [hw, Bool.false_eq_true, if_false, Option.some.injEq] at h
+        simp [serve, hf, hw, ← h]
+
+/-- a connection that has not been stopped dispatches the request -/
+theorem serveOn_live (P : Params) (user stored : Option Bytes) (c : Conn) (hits : String → Bool)
+    (header : List Bytes) (hd : c.deaf = false) :
+    (serveOn P user stored c hits header).1 = some (serve P user stored hits header) := by
+  cases h : (serveOn P user stored c hits header).1 with
+  | some a => rw [serveOn_answer P user stored c hits header a h]
+  | none =>
+    exfalso
+    unfold serveOn at h
+    simp only [hd, Bool.false_eq_true, if_false] at h
+    split at h
+    · simp at h
+    · split at h <;> simp at h
+
+/-- … and stays live unless this very request was refused with 401 -/
+theorem serveOn_stays_live (P : Params) (user stored : Option Bytes) (c : Conn) (hits : String → Bool)
+    (header : List Bytes) (hd : c.deaf = false)
+    (h401 : (serve P user stored hits header).status ≠ some 401) :
+    (serveOn P user stored c hits header).2.deaf = false := by
+  unfold serveOn
+  simp only [hd, Bool.false_eq_true, if_false]
+  cases hf : dispatch_order.find? hits with
+  | none => simpa using hd
+  | some name =>
+    simp only
+    cases hw : isWrapped user name with
+    | false => simpa using hd
+    | true =>
+      simp only [if_true, handleRequestOn_eq]
+      rw [serve_eq_answerOf P user stored hits header name hf hw] at h401
+      cases hr : handleRequest P [(user.getD [], stored.getD [])] header with
+      | unauthorized => rw [hr] at h401; simp [answerOf, code_unauthorized] at h401
+      | inner u p => simpa [afterResp] using hd
+      | malformed => simpa [afterResp] using hd
+      | raised => simpa [afterResp] using hd
+
+/-- once the channel has stopped reading it never dispatches again -/
+theorem serveOn_deaf (P : Params) (user stored : Option Bytes) (c : Conn) (hits : String → Bool)
+    (header : List Bytes) (hd : c.deaf = true) :
+    serveOn P user stored c hits header = (none, c) := by
+  simp [serveOn, hd]
+
+/-- **every_request_decided_alone.**  For every sequence of requests on one connection — any length,
+    any mixture of right, absent, wrong and malformed credentials, any handlers — the answer to the
+    k-th request, if the channel answers it at all, is the answer that request would get alone on a
+    fresh connection: it depends on the k-th request's own header only. -/
+theorem every_request_decided_alone (P : Params) (user stored : Option Bytes) :
+    ∀ (reqs : List Req) (c : Conn) (k : Nat) (r : Req) (a : Answer),
+      reqs[k]? = some r → (serveConn P user stored c reqs)[k]? = some (some a) →
+      a = serve P user stored r.hits r.header := by
+  intro reqs
+  induction reqs with
+  | nil => intro c k r a h; simp at h
+  | cons q rest ih =>
+    intro c k r a hk ha
+    cases k with
+    | zero =>
+      simp only [List.getElem?_cons_zero, Option.some.injEq] at hk
+      subst hk
+      simp only [serveConn, List.getElem?_cons_zero, Option.some.injEq] at ha
+      exact serveOn_answer P user stored c _ _ a ha
+    | succ k =>
+      simp only [List.getElem?_cons_succ] at hk
+      simp only [serveConn, List.getElem?_cons_succ] at ha
+      exact ih _ k r a hk ha
+
+/-- **served_iff_authorized, every request of a connection.**  With a configured username, on a
+    connection that has carried any requests before — including requests with the right credentials —
+    the k-th request runs a handler only if a handler matches it and it carries exactly the
+    configured credentials itself. -/
+theorem no_request_served_on_earlier_credentials (P : Params) (user stored : Bytes)
+    (reqs : List Req) (c : Conn) (k : Nat) (r : Req) (a : Answer)
+    (hk : reqs[k]? = some r) (ha : (serveConn P (some user) (some stored) c reqs)[k]? = some (some a))
+    (hi : a.invoked.isSome = true) :
+    SomeHandlerMatches r.hits ∧ Authorized P user stored r.header := by
+  have := every_request_decided_alone P (some user) (some stored) reqs c k r a hk ha
+  subst this
+  exact (served_iff_authorized P user stored r.hits r.header).mp hi
+
+/-- … and it is served whenever it does carry them, as long as no earlier request of the connection
+    was refused with 401 (the refusal announces `Connection: close` and stops the channel reading). -/
+theorem right_credentials_served_on_live_connection (P : Params) (user stored : Bytes) :
+    ∀ (reqs : List Req) (c : Conn) (k : Nat) (r : Req), c.deaf = false → reqs[k]? = some r →
+      (∀ j q, j < k → reqs[j]? = some q → (serve P (some user) (some stored) q.hits q.header).status ≠ some 401) →
+      (serveConn P (some user) (some stored) c reqs)[k]? =
+        some (some (serve P (some user) (some stored) r.hits r.header)) := by
+  intro reqs
+  induction reqs with
+  | nil => intro c k r _ h; simp at h
+  | cons q rest ih =>
+    intro c k r hd hk hprev
+    cases k with
+    | zero =>
+      simp only [List.getElem?_cons_zero, Option.some.injEq] at hk
+      subst hk
+      simp only [serveConn, List.getElem?_cons_zero, Option.some.injEq]
+      exact serveOn_live P _ _ c _ _ hd
+    | succ k =>
+      simp only [List.getElem?_cons_succ] at hk
+      simp only [serveConn, List.getElem?_cons_succ]
+      apply ih _ k r _ hk
+      · intro j q' hj hq'
+        exact hprev (j + 1) q' (by omega) (by simpa using hq')
+      · exact serveOn_stays_live P _ _ c _ _ hd (hprev 0 q (by omega) (by simp))
+
+/-- **after_401_nothing_runs.**  After a request of the connection has been refused with 401 the
+    channel dispatches nothing more: every later request of that connection gets no answer and runs
+    no handler. -/
+theorem after_401_nothing_runs (P : Params) (user stored : Option Bytes) :
+    ∀ (reqs : List Req) (c : Conn), c.deaf = true →
+      ∀ x ∈ serveConn P user stored c reqs, x = none := by
+  intro reqs
+  induction reqs with
+  | nil => intro c _ x hx; simp [serveConn] at hx
+  | cons q rest ih =>
+    intro c hd x hx
+    simp only [serveConn, serveOn_deaf P user stored c _ _ hd, List.mem_cons] at hx
+    rcases hx with hx | hx
+    · exact hx
+    · exact ih c hd x hx
+
+theorem refusal_401_stops_the_channel (P : Params) (user stored : Bytes) (c : Conn) (hits : String → Bool)
+    (header : List Bytes) (hd : c.deaf = false)
+    (h : (serveOn P (some user) (some stored) c hits header).1 = some ⟨some 401, true, none⟩) :
+    (serveOn P (some user) (some stored) c hits header).2.deaf = true := by
+  unfold serveOn at h ⊢
+  simp only [hd, Bool.false_eq_true, if_false] at h ⊢
+  cases hf : dispatch_order.find? hits with
+  | none => simp [hf, code_no_handler] at h
+  | some name =>
+    simp only [hf] at h ⊢
+    cases hw : isWrapped (some user) name with
+    | false => simp [hw] at h
+    | true =>
+      simp only [hw, if_true, handleRequestOn_eq, Option.some.injEq] at h ⊢
+      cases hr : handleRequest P [((some user).getD [], (some stored).getD [])] header with
+      | unauthorized => simp [afterResp, decision_keeps_no_state.2.2.2.2.2.2.2.2.2.2.2.2.2.2.2.1]
+      | inner u p => rw [hr] at h; simp [answerOf] at h
+      | malformed => rw [hr] at h; simp [answerOf, code_malformed] at h
+      | raised => rw [hr] at h; simp [answerOf, code_exception] at h
+
 /-! ### Non-vacuity -/
 
 /-- toy runtime: base64 = identity, everything valid UTF-8, sha1hex = reverse -/
@@ -483,5 +678,17 @@ example : (serveAt toyP twoSecs 0 (fun _ => true) hdrB2) = some ⟨some 401, tru
 example : (serveAt toyP twoSecs 1 (fun _ => true) hdrB2).map (·.invoked) =
     some (some ("xmlrpchandler", some ([98], [50]))) := by decide
 example : SomeHandlerMatches (fun n => n == "defaulthandler") := ⟨"defaulthandler", by decide, by decide⟩
+
+-- one connection: right credentials, then none, then wrong ones, on different handlers: only the first is served,
+-- the second is refused with 401 and the third is not dispatched any more
+def rq (h : String) (hd : List Bytes) : Req := ⟨fun n => n == h, hd⟩
+example : serveConn toyP (some [117]) (some [112, 119]) {} [rq "xmlrpchandler" hdrOk, rq "xmlrpchandler" [], rq "defaulthandler" hdrBad] =
+    [some ⟨none, false, some ("xmlrpchandler", some ([117], [112, 119]))⟩, some ⟨some 401, true, none⟩, none] := by decide
+-- right, right on another handler, malformed (400, connection stays usable), right again
+example : (serveConn { toyP with b64 := fun c => if c.length = 1 then none else some c } (some [117]) (some [112, 119]) {}
+      [rq "uihandler" hdrOk, rq "tailhandler" hdrOk,
+       rq "uihandler" [([65, 117, 116, 104, 111, 114, 105, 122, 97, 116, 105, 111, 110, 58, 32, 66, 97, 115, 105, 99, 32, 33] : Bytes)],
+       rq "defaulthandler" hdrOk]).map (fun a => a.map (·.status)) =
+    [some none, some none, some (some 400), some none] := by decide
 
 end Sv.Props.C17
